@@ -197,6 +197,18 @@ def r3(run, ctx):
 
 def r4(run, ctx):
     run.rule('R4', 'exit-status decoding table')
+    # 0 is a legitimate wait status (clean exit): "no status yet" must be `is None`
+    rp_ = ctx.fn(W + 'reap_process')
+    for t in ctx.cfg(rp_).nodes:
+        if t.kind != 'test':
+            continue
+        from sa.idioms import conj_atoms
+        atoms = [a for a, pol in conj_atoms(t.ast, True)] + [a for a, pol in conj_atoms(t.ast, False)]
+        for a in atoms:
+            if isinstance(a, ast.Name) and a.id == 'status':
+                run.fail('R4', rp_, t.ast, 'the wait status is tested by truthiness: a clean exit '
+                         '(status 0) is taken for "no status", and the reap event of a worker '
+                         'that exited with 0 carries no exit code', construct='status truthiness')
     f = ctx.fn(W + 'reap_process')
     cfg = ctx.cfg(f)
     assigns = [n for n in ctx.live_nodes(f) if n.kind == 'stmt' and isinstance(n.ast, ast.Assign)
